@@ -83,7 +83,8 @@ fn collect_sites(n: &Node, text: &str, interfaces: &BTreeMap<String, Vec<String>
     }
     "if" => {
       // then-branch of another type than the else-branch
-      if n.children.len() >= 3 {
+      let else_text = n.children.get(2).and_then(|e| e.children.first()).and_then(|b| b.loc).and_then(|l| splice_source(text, &l)).unwrap_or_default();
+      if n.children.len() >= 3 && !else_text.contains("panic") && !else_text.trim().is_empty() {
         if let Some(l) = n.children[1].children.first().and_then(|b| b.loc) {
           out.push(Site { op: "if-branch-of-another-type", loc: l, replacement: "{ ZzWrong.make() }".into(), detail: "then-branch".into() });
         }
@@ -156,8 +157,13 @@ fn collect_sites(n: &Node, text: &str, interfaces: &BTreeMap<String, Vec<String>
       // one arm (any but a lone one) gets a body of a type that occurs nowhere else: the arms of a
       // match must agree (the helper class ZzWrong is appended to the module by the splice step)
       let arms_all: Vec<&Node> = n.children.iter().filter(|c| c.kind == "arm").collect();
+      // (a sibling arm that only panics has every type: then nothing is guaranteed)
+      let sibling_is_polymorphic = |skip: usize| arms_all.iter().enumerate().filter(|(j, _)| *j != skip).all(|(_, a)| a.children.last().and_then(|b| b.loc).and_then(|l| splice_source(text, &l)).map(|t| t.contains("panic")).unwrap_or(true));
       if arms_all.len() >= 2 {
         for (k, a) in arms_all.iter().enumerate() {
+          if sibling_is_polymorphic(k) {
+            continue;
+          }
           if let Some(body) = a.children.last().and_then(|b| b.loc) {
             out.push(Site { op: "match-arm-of-another-type", loc: body, replacement: "ZzWrong.make()".into(), detail: format!("arm {} of {}", k + 1, arms_all.len()) });
           }
